@@ -11,12 +11,14 @@ import (
 	"fmt"
 	"go/ast"
 	"go/parser"
+	"go/printer"
 	"go/token"
 	"os"
 	"path/filepath"
 	"sort"
 	"strconv"
 	"strings"
+	"unicode"
 
 	"github.com/grindlemire/go-lucene/internal/lex"
 	"github.com/grindlemire/go-lucene/pkg/driver"
@@ -229,6 +231,18 @@ func main() {
 	}
 	o.def("sharedKeys", "List Nat", keys(driver.Shared))
 	o.def("postgresKeys", "List Nat", keys(driver.NewPostgresDriver().RenderFNs))
+	// the ASCII part of the class tables the lexer consults (live unicode.IsLetter / unicode.IsDigit)
+	var letters, digits []string
+	for r := rune(0); r < 128; r++ {
+		if unicode.IsLetter(r) {
+			letters = append(letters, strconv.Itoa(int(r)))
+		}
+		if unicode.IsDigit(r) {
+			digits = append(digits, strconv.Itoa(int(r)))
+		}
+	}
+	o.def("asciiLetters", "List Nat", list(letters))
+	o.def("asciiDigits", "List Nat", list(digits))
 
 	// ---- go/ast -------------------------------------------------------------------------------
 	_, lexF := parseFile(filepath.Join(repo, "internal/lex/lex.go"))
@@ -250,6 +264,23 @@ func main() {
 		}
 	} else {
 		o.def("symbols", "Option (List (Nat × String))", "none")
+	}
+	// the character-class predicates of the lexer, as the source text of their single return expression
+	{
+		items = nil
+		for _, fn := range []string{"isAlphaNumeric", "isWildcard", "isSpace", "isEscape"} {
+			txt := "?"
+			if fd := findFunc(lexF, fn); fd != nil && fd.Body != nil && len(fd.Body.List) == 1 {
+				if rs, isRet := fd.Body.List[0].(*ast.ReturnStmt); isRet && len(rs.Results) == 1 {
+					var sb strings.Builder
+					if printer.Fprint(&sb, token.NewFileSet(), rs.Results[0]) == nil {
+						txt = sb.String()
+					}
+				}
+			}
+			items = append(items, fmt.Sprintf("(%s, %s)", q(fn), q(txt)))
+		}
+		o.def("classFns", "List (String × String)", list(items))
 	}
 	// keywords: the switch in lexWord: case "AND": return l.emit(TAnd)
 	{
